@@ -195,6 +195,22 @@ var _ = func() bool {
 		}
 		return fmt.Sprintf("%s %s %d %d", verifTypeStr(t1), verifTypeStr(t2), b(types.IdenticalIgnoreTags(t1, t2)), b(types.Identical(t1, t2)))
 	}
+	// tpair <pkg> <e1> <e2> -> inst1 orig1 hash1 inst2 orig2 hash2 identicalIgnoreTags(inst1,inst2) identical(inst1,inst2)
+	verifOps["tpair"] = func(a []string) string {
+		i1, o1 := verifStructs(verifEvalType(string(verifUnhex(a[0])), string(verifUnhex(a[1]))))
+		i2, o2 := verifStructs(verifEvalType(string(verifUnhex(a[0])), string(verifUnhex(a[2]))))
+		if i1 == nil || i2 == nil {
+			return "nostruct"
+		}
+		b := func(x bool) int {
+			if x {
+				return 1
+			}
+			return 0
+		}
+		return fmt.Sprintf("%s %s %d %s %s %d %d %d", verifTypeStr(i1), verifTypeStr(o1), typeutil_hash(o1),
+			verifTypeStr(i2), verifTypeStr(o2), typeutil_hash(o2), b(types.IdenticalIgnoreTags(i1, i2)), b(types.Identical(i1, i2)))
+	}
 	// hfield <pkg> <expr> <index> -> hashWithStruct(origin struct, field index) and the field name
 	verifOps["hfield"] = func(a []string) string {
 		_, origin := verifStructs(verifEvalType(string(verifUnhex(a[0])), string(verifUnhex(a[1]))))
@@ -206,7 +222,7 @@ var _ = func() bool {
 			return "nofield"
 		}
 		f := origin.Field(i)
-		return verifHex([]byte(hashWithStruct(origin, f))) + " " + verifHex([]byte(f.Name()))
+		return verifHex([]byte(hashWithStruct(origin, f))) + " " + verifHex([]byte(f.Name())) + " " + verifTypeStr(origin)
 	}
 	// fstruct <pkg> -> for every field object referenced in the package (uses, defs, selections), whether the
 	// real computeFieldToStruct maps its origin to a struct, and that struct's hash
